@@ -61,6 +61,7 @@ type rebaseCtx struct {
 	aenv  map[string]phiEnv    // atom symbol -> the phi choices in force where its call is evaluated
 	adep  map[string]int       // atom symbol -> nesting depth at which it was met
 	depth int                  // recursion depth over callee summaries
+	inner phiEnv               // edge choices for merge phis met behind a substituted phi (nil: they stay opaque)
 }
 
 func atomName(v ssa.Value) string { return fmt.Sprintf("pos:%s@%d", v.Name(), v.Pos()) }
@@ -198,6 +199,11 @@ func (c *rebaseCtx) lin(v ssa.Value, env phiEnv, depth int) asm.Lin {
 		}
 	case *ssa.Phi:
 		if i, ok := env[x.Block()]; ok {
+			// the chosen edge's own phis are the previous iteration's values (opaque), except merge phis the
+			// caller asked to expand as well (inner)
+			if c.inner != nil {
+				return c.lin(x.Edges[i], c.inner, depth+1)
+			}
 			return c.lin(x.Edges[i], phiEnv{}, depth+1)
 		}
 	case *ssa.Extract:
